@@ -350,15 +350,24 @@ where
     ) -> Result<(u8, PacketStatus), RadioError> {
         if let RadioMode::Receive(_) = self.radio_mode {
             loop {
-                match self.radio_kind.process_irq_event(self.radio_mode, None, true).await {
-                    Ok(Some(actual_state)) => match actual_state {
-                        IrqState::PreambleReceived => (),
-                        IrqState::Done => {
-                            let received_len = self.radio_kind.get_rx_payload(packet_params, receiving_buffer).await?;
-                            let rx_pkt_status = self.radio_kind.get_rx_packet_status().await?;
-                            return Ok((received_len, rx_pkt_status));
+                // fetching the packet can fail as well: such an error ends the reception like
+                // an error reported by the IRQ processing does
+                let outcome = match self.radio_kind.process_irq_event(self.radio_mode, None, true).await {
+                    Ok(Some(IrqState::Done)) => {
+                        match self.radio_kind.get_rx_payload(packet_params, receiving_buffer).await {
+                            Ok(received_len) => self
+                                .radio_kind
+                                .get_rx_packet_status()
+                                .await
+                                .map(|rx_pkt_status| Some((received_len, rx_pkt_status))),
+                            Err(err) => Err(err),
                         }
-                    },
+                    }
+                    Ok(_) => Ok(None),
+                    Err(err) => Err(err),
+                };
+                match outcome {
+                    Ok(Some(received)) => return Ok(received),
                     Ok(None) => (),
                     Err(err) => {
                         // if in rx continuous mode, allow the caller to determine whether to keep receiving
